@@ -524,8 +524,8 @@ def gen_schema(rng, opts=None):
     for n in interfaces:
         it = s.types[n]
         fu = set()
-        for _ in range(ri(1, 3)):
-            f = gen_field(fu, 0.7)
+        for _ in range(ri(2, 4)):
+            f = gen_field(fu, 0.5)
             it.fields[f.name] = f
     # objects: implement 0-2 interfaces, copy their fields (same types/args), add own
     covariant = []
